@@ -65,7 +65,7 @@ def _worker(case):
 
 def run(tier, seed, broken_proof=False):
     rng = random.Random(seed + 1717)
-    count = 40 if tier == "quick" else 300
+    count = 70 if tier == "quick" else 400
     cand = ops.corpus_cases(False) + ops.gen_ops_cases(rng, count * 3, False, max_atoms=4, max_conds=4, nq=4, prefix="y")
     m0 = common.run_model(cand)
     cases = []
